@@ -4,6 +4,7 @@ from props_common import COMMON_NOTE
 CONF = dict(
     families=[('shd', 260, 5000)],
     compare=None,
+    k_is_property=True,
     gen_obligations=0,
     trusted=['modelled by hand: HashForSignature, HashForWitnessV0, HashForWitnessV1; coq/Spec/ElementsSighash.v is the independent statement of the three layouts; '
              'tools/genvectors.py regenerates the published vectors of transaction/data/tx_valid.json into coq/Gen/SighashVectors.v on every run'],
